@@ -352,7 +352,13 @@ func (c *calc) lineCore(P Dec, s docgen.SubLine) subOut {
 			if ch.Quantity != "" {
 				q = mustDec(ch.Quantity)
 			}
-			amount = c.mul(c.tv(mustDec(ch.Rate)), q)
+			// the product keeps its own decimals up to the working precision
+			r := mustDec(ch.Rate)
+			e := r.Exp + q.Exp
+			if max := c.env.C + c.env.K1; e > max {
+				e = max
+			}
+			amount = c.rule(c.mul(c.tv(up(r, e)), q))
 		}
 		amount = c.upTV(amount, c.env.C)
 		total = c.add(total, amount)
